@@ -992,3 +992,44 @@ Lemma thm_no_fit_diverges : forall fuel shards sizes maxS maxC,
   Exists (fun p => p > maxS) sizes ->
   distribute_fuel fuel shards sizes maxS maxC = None.
 Proof. intros fuel shards sizes maxS maxC. apply distribute_diverges. Qed.
+
+(* ------------------ the checker of stored ranges on a live node (CLive) --- *)
+
+Definition range_from (a : N) (n : nat) : list N := map (fun k => (a + N.of_nat k)%N) (seq 0 n).
+
+Lemma contig_from_spec : forall l a, contig_from a l = true -> l = range_from a (length l).
+Proof.
+  induction l as [|x r IH]; intros a H; [reflexivity|].
+  cbn [contig_from] in H. apply andb_true_iff in H. destruct H as [Hx Hr].
+  apply N.eqb_eq in Hx. subst x.
+  unfold range_from. cbn [length seq map].
+  f_equal; [lia|].
+  rewrite (IH _ Hr) at 1. unfold range_from.
+  rewrite <- seq_shift, map_map. apply map_ext. intros k. lia.
+Qed.
+
+Lemma contig_b_spec : forall l, contig_b l = true -> exists a, l = range_from a (length l).
+Proof.
+  intros [|x r] H; [exists 0%N; reflexivity|].
+  exists x. apply contig_from_spec. exact H.
+Qed.
+
+Lemma once_each_b_spec : forall n l, once_each_b n l = true ->
+  length l = n /\ forall i, (i < n)%nat -> count_n (N.of_nat i) l = 1%nat.
+Proof.
+  intros n l H. unfold once_each_b in H. apply andb_true_iff in H. destruct H as [Hl Hc].
+  apply Nat.eqb_eq in Hl. split; [exact Hl|].
+  intros i Hi. rewrite forallb_forall in Hc.
+  specialize (Hc i). apply Nat.eqb_eq. apply Hc. apply in_seq. lia.
+Qed.
+
+Lemma live_ranges_sound : forall n stored, live_ranges_b n stored = true ->
+  (forall s, In s stored -> exists a, s = range_from a (length s))
+  /\ length (concat stored) = n
+  /\ forall i, (i < n)%nat -> count_n (N.of_nat i) (concat stored) = 1%nat.
+Proof.
+  intros n stored H. unfold live_ranges_b in H. apply andb_true_iff in H. destruct H as [Hc Ho].
+  split.
+  - intros s Hs. rewrite forallb_forall in Hc. apply contig_b_spec. apply Hc. exact Hs.
+  - apply once_each_b_spec. exact Ho.
+Qed.
